@@ -389,7 +389,7 @@ def run_op_unit(spec_name, k, opts):
                           under_test=b['method'], inductive=bool(opts.get('inductive')))
     outs = I.run('BDDEnv', None, b['method'], [mk_sref(env)] + b['args'], mem)
     rets, pc, pmsgs = outcome_split(outs)
-    res = dict(queries=[], spec=spec_name, k=k)
+    res = dict(queries=[], spec=spec_name, k=k, method=b['method'], inductive=bool(opts.get('inductive')))
     assumptions = list(w.constraints) + list(b.get('assume', []))
     timeout = opts.get('timeout', 600)
     want = opts.get('obligations', ('struct', 'sem', 'panic', 'wf'))
@@ -602,6 +602,26 @@ def spec_cmp_count_compare(op, na, nb):
     return f
 
 
+def spec_count_rec(which, na, nb, n):
+    """count_leq_recursive / count_geq_recursive (a, b, n) for the two start values the public functions use"""
+    def f(I, w, k, opts):
+        ta = [w.tt('l%d' % j) for j in range(na)]
+        tb = [w.tt('r%d' % j) for j in range(nb)]
+        exp = []
+        for j in range(1 << k):
+            ca = count_bv([t[j] for t in ta], 8)
+            cb = count_bv([t[j] for t in tb], 8)
+            nn = z3.BitVecVal(n, 8)
+            # leq: aln(b, n + #a) <=> #b >= n + #a ; geq: amn(b, n + #a) <=> #b <= n + #a   (signed 8-bit is ample here)
+            exp.append(_simp(cb >= ca + nn if which == 'count_leq_recursive' else cb <= ca + nn))
+        op = {('count_leq_recursive', 0): 'count_leq', ('count_leq_recursive', 1): 'count_lt',
+              ('count_geq_recursive', 0): 'count_geq', ('count_geq_recursive', -1): 'count_gt'}[(which, n)]
+        return dict(method=which, args=[mk_sref(Seq([w.canon(t) for t in ta])), mk_sref(Seq([w.canon(t) for t in tb])), n], expected=exp,
+                    bound='k=%d, |a|=%d, |b|=%d, n=%d' % (k, na, nb, n),
+                    case=_case(op, w, k, ['l%d' % j for j in range(na)] + ['r%d' % j for j in range(nb)], lambda m, c: [str(na)]))
+    return f
+
+
 def _signed(v):
     return v - (1 << 64) if v >= (1 << 63) else v
 
@@ -760,6 +780,11 @@ for _op in ('count_leq', 'count_lt', 'count_geq', 'count_gt'):
     for _a in range(0, 4):
         for _b in range(0, 4):
             SPECS['cmp_count_compare[%s]/%d,%d' % (_op, _a, _b)] = spec_cmp_count_compare(_op, _a, _b)
+for _w, _ns in (('count_leq_recursive', (0, 1)), ('count_geq_recursive', (0, -1))):
+    for _n in _ns:
+        for _a in range(0, 4):
+            for _b in range(0, 4):
+                SPECS['%s[%d]/%d,%d' % (_w, _n, _a, _b)] = spec_count_rec(_w, _a, _b, _n)
 SPECS['model'] = spec_model
 SPECS['infer'] = spec_infer
 SPECS['retain'] = spec_retain
